@@ -2,6 +2,8 @@ package mempoolrig
 
 import (
 	"fmt"
+	"os"
+	"strings"
 	"math/big"
 	"sort"
 	"testing/synctest"
@@ -32,6 +34,9 @@ type MTx struct {
 	AcceptedAt time.Duration // virtual time of the (last) acceptance
 	StaleAtGen bool          // nonce below the committed nonce when generated
 	External   bool          // never submitted to the node's mempool by the generator
+	// BehindFailed: it sat in the future queue behind a transaction that was
+	// not covered when that one's turn came (see known finding).
+	BehindFailed bool
 }
 
 // Options selects what an engine run does beyond the common workload.
@@ -108,6 +113,11 @@ func (e *Engine) Tracef(format string, args ...interface{}) {
 
 // Violate records a violation and stops the run when it is a new one.
 func (e *Engine) Violate(class, key, format string, args ...interface{}) bool {
+	if strings.Contains(","+os.Getenv("MPRIG_ASSUME_KNOWN")+",", ","+key+",") {
+		// test aid: treat a key as a listed finding before it is listed
+		e.C.Probe("assumed-known:" + key)
+		return false
+	}
 	if e.C.Violate(class, key, format, args...) {
 		e.stopped = true
 		e.Tracef("VIOLATION %s: %s", key, fmt.Sprintf(format, args...))
